@@ -467,12 +467,31 @@ pub fn check_c18(ctx: &mut Ctx, input: &[u8]) {
             // C11's business; here the error only has to be true of *some* tile (so that a tree on which
             // iteration is off but errors are honest does not alarm this property).
             if let Some(tiles) = dec::tiling(b) {
+                let honest = |e: &RtcpParseError| tiles.iter().any(|&(at, end)| Packet::parse(&b[at..end]).err().as_ref() == Some(e));
                 for item in c.take(tiles.len() + 1) {
                     if let Err(e) = item {
                         // the error must be exactly what the generic parser reports for one of the tiles
                         // (which tile is C11's business); an error no tile produces describes none of them
-                        let ok = tiles.iter().any(|&(at, end)| Packet::parse(&b[at..end]).err().as_ref() == Some(&e));
+                        let ok = honest(&e);
                         out.push(("Compound::next", if ok { "tile" } else { "tile-untruthful" }, None, e, None));
+                    }
+                }
+                // errors handed out by positional access (nth(), and skip() / step_by(), which std builds on it)
+                // are errors of the compound iteration as well
+                for k in 0..tiles.len().min(5) {
+                    if let Ok(mut c) = Compound::parse(b) {
+                        if let Some(Err(e)) = c.nth(k) {
+                            let ok = honest(&e);
+                            out.push(("Compound::nth", if ok { "tile" } else { "tile-untruthful" }, None, e, None));
+                        }
+                    }
+                }
+                if let Ok(c) = Compound::parse(b) {
+                    for item in c.step_by(2).take(tiles.len() + 1) {
+                        if let Err(e) = item {
+                            let ok = honest(&e);
+                            out.push(("Compound::step_by", if ok { "tile" } else { "tile-untruthful" }, None, e, None));
+                        }
                     }
                 }
             }
@@ -488,7 +507,7 @@ pub fn check_c18(ctx: &mut Ctx, input: &[u8]) {
                 let subject: &[u8] = b;
                 let own = pt;
                 ctx.class_dyn(format!("c18:{route}:{}", crate::drive::variant_name(&format!("{e:?}"))));
-                let verdict = if route == "Compound::next" {
+                let verdict = if route.starts_with("Compound::") {
                     if target == "tile-untruthful" { Err(format!("{e:?} is true of no tile of the datagram")) } else { Ok(()) }
                 } else {
                     truthful(&e, subject, own)
